@@ -5,6 +5,7 @@ import SciVerif.Lemmas.C10i
 import SciVerif.Lemmas.C10j
 import SciVerif.Lemmas.C10k
 import SciVerif.Lemmas.C10n
+import SciVerif.Lemmas.C10p
 import SciVerif.Facts.C10Table
 
 /-!
@@ -136,6 +137,55 @@ theorem C10_counts_text_flat_partial (valid : Str → Bool) (f : F) (hf : f.flat
   simp only [substanceOf, he, solveStr, preprocess_flat f hf hsh]
   rw [(solve_explicit_aux valid f (flat_factorOK f hf) hok).2 _ (by omega), C10_counts_partial]
   simp
+
+/-- A parenthesis ends a match of the species pattern of `preprocess` exactly as the end of the
+    text does: for ANY text `w` and any continuation `s`, the greedy match at the head of `w(s` /
+    `w)s` is the match at the head of `w` with the parenthesis and `s` appended to the remainder.
+    (Basis of all results about groups: pass 1 and pass 2 never look across a parenthesis.) -/
+theorem C10_species_pattern_stops_at_paren (w s : Str) (e : Char) (he : e = '(' ∨ e = ')') :
+    matchP (w ++ e :: s) =
+      (matchP w).map fun q => (q.1, q.2.1, q.2.2.1, q.2.2.2.1, q.2.2.2.2 ++ e :: s) :=
+  matchP_mark w s e he
+
+/-- … hence one substitution of pass 1 (`re.sub(…, count=1)`) on `w` followed by a parenthesis acts
+    inside `w` if it can, and otherwise behind the parenthesis — for ANY text `w`. -/
+theorem C10_pass1_step_stops_at_paren (w s : Str) (e : Char) (he : e = '(' ∨ e = ')') :
+    pass1Step (w ++ e :: s) =
+      match pass1Step w with
+      | some x => some (x ++ e :: s)
+      | none => (pass1Step (e :: s)).map (w ++ ·) :=
+  pass1Step_mark w s e he
+
+/-- Further proved fragment of `C10_preprocess_statement`, SHORT notation WITH parentheses: one
+    parenthesised group without or with a count — `(OH)2`, `(CH3)3`, `(C2H5 O)12`, `(Na{23} + Cl)` —
+    whose inside is any parenthesis-free formula (species, counts, juxtaposition with any number of
+    blanks incl. none, explicit ` + `).  All four passes: pass 1 reaches the fixed point of the
+    inside without touching the parentheses, pass 2 rewrites the counts inside and leaves the
+    group count, pass 3 leaves the leading `(`, pass 4 rewrites `)n` into `) * n`.
+    Still missing for the full statement: several items/groups next to each other (`X (`, `)n X`,
+    `)n (` in passes 3/4), nested groups, a trailing explicit ` * n`. -/
+theorem C10_preprocess_group_partial (f : F) (hf : f.group1) (hs : f.spAll SpeciesShape) :
+    preprocess (render f) = renderExplicit f :=
+  preprocess_group1 f hf hs
+
+/-- TEXT level, unconditional, SHORT notation, one parenthesised group with an optional count
+    (`(OH)2`): `Substance(text)` through the whole modelled pipeline — four preprocess scanners,
+    tokenizer, `OperatorPar` scan and nested solve, par/mul/add passes, `Composite` operations — has
+    exactly the expanded counts. -/
+theorem C10_counts_text_group_partial (valid : Str → Bool) (f : F) (hwf : f.wf = true) (hf : f.group1)
+    (hs : f.spAll fun s => SpeciesShape s ∧ valid s = true) :
+    substanceOf valid (render f) = some ((expand f).map fun kn => (kn.1, (kn.2 : Rat))) := by
+  have hsh : f.spAll SpeciesShape := spAll_mono (fun s h => h.1) f hs
+  have hok : f.spAll (SpeciesOK valid) :=
+    spAll_mono (fun s h => speciesOK_of_text valid s (speciesText_of_shape s h.1) h.2) f hs
+  refine C10_counts_text_partial valid f hwf hok (preprocess_group1 f hf hsh) ?_
+  cases f with
+  | group g => simp [render]
+  | count f' n =>
+    cases f' with
+    | group g => simp [render]
+    | _ => exact absurd hf (by simp [F.group1])
+  | _ => exact absurd hf (by simp [F.group1])
 
 /-- each species is counted exactly as often as it occurs in the expanded formula, and no
     species is listed twice -/
@@ -291,5 +341,18 @@ def exFlat : F :=
 example : exFlat.flat ∧ String.ofList (render exFlat) = "C2H5OH" ∧
     String.ofList (renderExplicit exFlat) = "C * 2 + H * 5 + O + H" := by
   refine ⟨⟨⟨⟨trivial, trivial⟩, trivial⟩, trivial⟩, by decide +kernel, by decide +kernel⟩
+
+/-- the hypotheses of the group theorems are satisfiable: `(CH3)3`, expansion C3 H9 -/
+def exGroup : F := .count (.group (.seq 0 (.sp ['C']) (.count (.sp ['H']) 3))) 3
+example : exGroup.wf = true ∧ exGroup.group1 ∧ String.ofList (render exGroup) = "(CH3)3" ∧
+    String.ofList (renderExplicit exGroup) = "(C + H * 3) * 3" ∧
+    expand exGroup = [(['C'], 3), (['H'], 9)] :=
+  ⟨by decide, ⟨trivial, trivial⟩, by decide +kernel, by decide +kernel, by decide +kernel⟩
+example : exGroup.spAll (fun s => SpeciesShape s ∧ (fun _ => true) s = true) := by
+  have one : ∀ u : Char, isUp u = true → SpeciesShape [u] :=
+    fun u hu => ⟨[u], [], by simp, Or.inl rfl, Or.inl ⟨u, hu, rfl⟩⟩
+  exact ⟨⟨one 'C' (by decide), rfl⟩, ⟨one 'H' (by decide), rfl⟩⟩
+/-- transparency is not vacuous: the capital run `CH` before `)` is matched as in the closed text -/
+example : matchP "CH)3".toList = some (2, ['C', 'H'], [], [], ")3".toList) := by decide +kernel
 
 end SciVerif.C10
